@@ -2656,7 +2656,16 @@ func (r *Runtime) Try(f func()) *Exception {
 // try runs f and returns whatever stops it as an error: a JS exception, and also an interrupt or a
 // stack overflow, which must not leave an API that reports errors as a Go panic.
 func (r *Runtime) try(f func()) error {
-	return r.runWrapped(f)
+	if len(r.vm.callStack) == 0 {
+		// called from Go with nothing running below: this call is the boundary
+		return r.runWrapped(f)
+	}
+	// inside a run an interrupt keeps unwinding to the boundary of that run; it must not come back as an error value
+	// that the caller (or script, once the error is converted to an exception) can handle
+	if ex := r.vm.try(f); ex != nil {
+		return ex
+	}
+	return nil
 }
 
 func (r *Runtime) toObject(v Value, args ...interface{}) *Object {
